@@ -179,3 +179,72 @@ Definition run_cli_tree (t : kdf_table) (w : world) (argv : list text) (rnd1 rnd
   {| ob_code := main_status_code (m_status r); ob_out := m_stdout r; ob_consumed := m_exit r; ob_trace := [];
      ob_extra := be32 (N.of_nat (length (nodes (m_fs r)))) ++ flat_map (render_node (m_fs r)) watch
                  ++ status_text (m_status r) |}.
+
+(* ---------- recorded process runs of the direct-oracle matrices, evaluated in batches (tools/props_cli.py, the mx_ functions) ----------
+   Two additions for the batch, none of which changes what is computed:
+   (1) an X25519 MEMO.  A matrix of some hundred runs uses a handful of (scalar, point) pairs; each costs seconds in
+       vm_compute.  [dh_entry k u] is the triple (k, u, X25519 k u) with the value computed BY THE GALLINA DEFINITION
+       (the case files bind a table of such entries with Eval vm_compute, or load it from a .vo made the same way);
+       [PRd t d] is [PR t] whose p_dh looks the pair up in d first and falls back to the definition.  For a table of
+       dh_entry triples the two primitive records agree on every argument (PRd_dh below), so a missing or superfluous
+       entry costs time only.
+   (2) a LENGTHS-ONLY rendering ([mask] = true): every file content and stdout is replaced by as many zero bytes.  Used
+       for runs that drew operating-system randomness nobody can hand to the model (key-mode encryption without the
+       injected stream): exit code, message class, which paths exist and how long they are still have to agree. *)
+From Kestrel.Spec Require ChaPolyFacts.
+
+Definition dh_table := list (bytes * bytes * bytes).
+Fixpoint dh_lookup (d : dh_table) (k u : bytes) : option bytes :=
+  match d with
+  | [] => None
+  | (k', u', v) :: r => if bytes_eqb k' k && bytes_eqb u' u then Some v else dh_lookup r k u
+  end.
+Definition dh_entry (k u : bytes) : bytes * bytes * bytes := (k, u, p_dh P0 k u).
+Definition dh_table_ok (d : dh_table) : Prop :=
+  Forall (fun e => snd e = p_dh P0 (fst (fst e)) (snd (fst e))) d.
+
+Definition PRd (t : kdf_table) (d : dh_table) : prims :=
+  let p := PR t in
+  {| p_hash := p_hash p; p_hmac := p_hmac p; p_hkdf := p_hkdf p;
+     p_dh := fun k u => match dh_lookup d k u with Some v => v | None => p_dh p k u end;
+     p_seal := p_seal p; p_open := p_open p; p_scrypt := p_scrypt p |}.
+
+Lemma dh_entries_ok : forall l : list (bytes * bytes), dh_table_ok (map (fun p => dh_entry (fst p) (snd p)) l).
+Proof. intros l. unfold dh_table_ok. apply Forall_forall. intros e H. apply in_map_iff in H. destruct H as [p [<- _]]. reflexivity. Qed.
+
+Lemma PRd_dh : forall t d, dh_table_ok d -> forall k u, p_dh (PRd t d) k u = p_dh (PR t) k u.
+Proof.
+  intros t d H k u. cbn [PRd p_dh]. induction H as [|[[k' u'] v] r Hv _ IH]; cbn [dh_lookup].
+  - reflexivity.
+  - destruct (bytes_eqb k' k && bytes_eqb u' u) eqn:E.
+    + apply andb_prop in E. destruct E as [E1 E2].
+      apply ChaPolyFacts.bytes_eqb_eq in E1. apply ChaPolyFacts.bytes_eqb_eq in E2. subst. exact Hv.
+    + exact IH.
+Qed.
+
+Definition mask_bytes (m : bool) (b : bytes) : bytes := if m then repeat 0 (length b) else b.
+
+Definition render_path_m (m : bool) (l : fsys) (p : text) : bytes :=
+  match fs_get l p with
+  | Some c => 1 :: be32 (N.of_nat (length c)) ++ mask_bytes m c
+  | None => [0]
+  end.
+Definition render_node_m (m : bool) (l : fsys) (cp : cpath) : bytes :=
+  match node_at l cp with
+  | Some (NFile c) => 1 :: be32 (N.of_nat (length c)) ++ mask_bytes m c
+  | Some NDir => [2]
+  | None => [0]
+  end.
+
+Definition run_cli_x (t : kdf_table) (d : dh_table) (m : bool) (w : world) (argv : list text) (rnd1 rnd2 help ver : bytes)
+    (watch : list text) : obs :=
+  let r := real_cli_main (PRd t d) utf8_decode utf8 help ver w argv rnd1 rnd2 in
+  {| ob_code := main_status_code (m_status r); ob_out := mask_bytes m (m_stdout r); ob_consumed := m_exit r; ob_trace := [];
+     ob_extra := flat_map (render_path_m m (m_fs r)) watch ++ status_text (m_status r) |}.
+
+Definition run_cli_tree_x (t : kdf_table) (d : dh_table) (m : bool) (w : world) (argv : list text) (rnd1 rnd2 help ver : bytes)
+    (watch : list cpath) : obs :=
+  let r := real_cli_main (PRd t d) utf8_decode utf8 help ver w argv rnd1 rnd2 in
+  {| ob_code := main_status_code (m_status r); ob_out := mask_bytes m (m_stdout r); ob_consumed := m_exit r; ob_trace := [];
+     ob_extra := be32 (N.of_nat (length (nodes (m_fs r)))) ++ flat_map (render_node_m m (m_fs r)) watch
+                 ++ status_text (m_status r) |}.
